@@ -3,7 +3,7 @@ from . import ao_targets as A
 from . import fabric_targets as FT
 
 LEVEL = 'proof'
-TAGS = ('C07',)
+TAGS = ('C07', 'C06')
 TRUSTED = ['ActiveFabric.subscribe/publish/subscribed contracts (the fabric itself is C06): subscribed(sig, kind) answers '
            'whether ANY queue is registered under that name', 'LockingDeque.appendleft contract (C16)',
            'Event.__init__ contract (C25)']
@@ -25,4 +25,6 @@ def build(src, tier):
         ts.append(A.t_ao_publish(running))
     ts += [A.t_ao_top_meta('subscribe'), A.t_ao_top_meta('publish')]
     wf = FT.world_for(src, tier)
-    return [(w, ts), (wf, [FT.t_fabric_subscribed()])]
+    # "publish reaches every subscriber" rests on the fabric's own contracts: their obligations are part of this check
+    return [(w, ts), (wf, [FT.t_fabric_subscribed(), FT.t_publish(), FT.t_subscribe('event', 'sym'), FT.t_subscribe('int', 'lifo'),
+                           FT.t_runner_iteration('fifo'), FT.t_runner_iteration('lifo')])]
